@@ -138,7 +138,7 @@ alone, `Get id'` returns the value just written.  (`C01_genid_interceptor` turns
 the interceptor.) -/
 theorem C01_genid (cfg : Cfg M K R) (h : EqRefl cfg.ops) (s : CState M R) (id : String) (msg : M)
     (wr : WriteReq M K)
-    (hgen : icptId cfg id = "" ∧ wr.genEmptyID = true)
+    (hgen : idAbsent cfg id = true ∧ wr.genEmptyID = true)
     (hok : (Coll.update cfg s id msg wr).1.err = none) :
     ∃ id' new,
       (Coll.update cfg s id msg wr).1.val = some new ∧
@@ -156,7 +156,7 @@ theorem C01_genid (cfg : Cfg M K R) (h : EqRefl cfg.ops) (s : CState M R) (id : 
   simp only [hm]
   rw [he.1] at hok ⊢
   rw [he.2]
-  have hg : (icptId cfg id = "" && wr.genEmptyID) = true := by simp [hgen.1, hgen.2]
+  have hg : (idAbsent cfg id && wr.genEmptyID) = true := by simp [hgen.1, hgen.2]
   have ho := spec_update_outcome cfg (abs s) id msg wr
   generalize Spec.update cfg (abs s) id msg wr = r at hok ho
   -- the only successful outcome of a generating call is `created`
@@ -198,6 +198,76 @@ theorem C01_genid (cfg : Cfg M K R) (h : EqRefl cfg.ops) (s : CState M R) (id : 
         simp only [Option.map_some, Prod.mk.injEq, Option.some.injEq] at hgn
         exact ⟨c, (genLoop_some _ _ _ _ _ _ _ hloop).1, hgn.1.symm⟩
 
+/-- Since fix 929e9c0 the caller's EMPTY id with `WithGenIDIfAbsent` gets a generated id WHATEVER the id
+interceptor is (no hypothesis on it: a prefixing interceptor turns "" into a key of its own, which is not an
+id anybody provided): the conclusions of `C01_genid` for `id = ""`. -/
+theorem C01_genid_caller_gave_no_id (cfg : Cfg M K R) (h : EqRefl cfg.ops) (s : CState M R) (msg : M)
+    (wr : WriteReq M K) (hgen : wr.genEmptyID = true)
+    (hok : (Coll.update cfg s "" msg wr).1.err = none) :
+    ∃ id' new,
+      (Coll.update cfg s "" msg wr).1.val = some new ∧
+      (∃ t, (Coll.update cfg s "" msg wr).1.events = [{ id := id', time := t, kind := .add, old := none, new := some new }]) ∧
+      lookup s.items id' = none ∧
+      (Coll.update cfg s "" msg wr).1.idCalls = (if wr.idCb then [id'] else []) ∧
+      (lookup (Coll.update cfg s "" msg wr).2.items id').map (·.body) = some new ∧
+      (∃ cand, cand ≠ "" ∧ id' = icptId cfg cand) := by
+  obtain ⟨id', new, h1, h2, h3, h4, h5, _, h7⟩ :=
+    C01_genid cfg h s "" msg wr ⟨by simp [idAbsent], hgen⟩ hok
+  exact ⟨id', new, h1, h2, h3, h4, h5, h7⟩
+
+/-- "A generated id is unused", as the caller sees it: a write that generates its id (the caller gave no
+id, or one the interceptor maps to the empty key) never answers `AlreadyExists` (nor finds an item to
+update) - however many items the collection holds and whatever the interceptor does to the empty id -
+unless that is the very code the caller's own expected check or mask validation returned.  Before fix
+929e9c0 the second `Add("", WithGenIDIfAbsent())` behind a prefixing interceptor answered AlreadyExists. -/
+theorem C01_generated_id_never_exists (cfg : Cfg M K R) (h : EqRefl cfg.ops) (s : CState M R) (id : String)
+    (msg : M) (wr : WriteReq M K) (hgen : idAbsent cfg id = true ∧ wr.genEmptyID = true)
+    (ha : (Coll.update cfg s id msg wr).1.err = some .alreadyExists) :
+    (∃ chk, wr.expectedCheck = some chk ∧ chk (some cfg.ops.zero) = some .alreadyExists) ∨
+    cfg.ops.validate (fieldUpdater cfg wr) msg = some .alreadyExists := by
+  have he := coll_update_eq cfg h s id msg wr
+  rw [he.1] at ha
+  have hg : (idAbsent cfg id && wr.genEmptyID) = true := by simp [hgen.1, hgen.2]
+  have ho := spec_update_outcome cfg (abs s) id msg wr
+  generalize Spec.update cfg (abs s) id msg wr = r at ha ho
+  -- a resolved id of a generating call is a fresh one
+  have hfresh : ∀ id1 calls t1, Resolved cfg (abs s) id wr id1 calls t1 → lookup s.items id1 = none := by
+    intro id1 calls t1 hr
+    rcases hr with ⟨hf, _⟩ | ⟨_, rng', h1, _, _⟩
+    · rw [hg] at hf; cases hf
+    · have := genID_some cfg _ _ _ _ h1
+      cases hl : lookup s.items id1 with
+      | none => rfl
+      | some it =>
+        have hl' : (abs s).m id1 = some it := hl
+        simp [hl'] at this
+  cases ho with
+  | invalid c hv =>
+    simp only [failOut, Option.some.injEq] at ha
+    right; rw [hv, ha]
+  | exhausted rng' _ _ _ => simp [failOut] at ha
+  | alreadyExists id1 calls t1 it _ hr hl _ =>
+    have := hfresh _ _ _ hr
+    have hl' : lookup s.items id1 = some it := hl
+    rw [hl'] at this; cases this
+  | precondition id1 calls t1 it c _ hr hl _ _ =>
+    have := hfresh _ _ _ hr
+    have hl' : lookup s.items id1 = some it := hl
+    rw [hl'] at this; cases this
+  | updated id1 calls t1 it new _ hr hl _ _ =>
+    have := hfresh _ _ _ hr
+    have hl' : lookup s.items id1 = some it := hl
+    rw [hl'] at this; cases this
+  | notFound id1 calls t1 _ hr _ _ => simp [failOut] at ha
+  | createFailed id1 calls t1 c _ hr _ _ hn =>
+    simp only [failOut, Option.some.injEq] at ha
+    subst ha
+    rcases newValue_error _ _ _ _ _ _ _ hn with hc | ⟨chk, h1, h2⟩
+    · cases hc
+    · exact Or.inl ⟨chk, h1, h2⟩
+  | created id1 calls t1 new _ _ _ _ _ =>
+    exfalso; revert ha; unfold Spec.commit; cases wr.writeTime <;> simp
+
 /-- A sufficient condition on the id interceptor (none is an interceptor too: the identity):
 IDEMPOTENT (`icpt (icpt x) = icpt x`) and NON-EMPTINESS PRESERVING (`x ≠ "" → icpt x ≠ ""`).  Then a
 generated id is non-empty, was unused, is reported once, and is USABLE: `Get id'` returns the item just
@@ -208,7 +278,7 @@ theorem C01_genid_interceptor (cfg : Cfg M K R) (h : EqRefl cfg.ops) (s : CState
     (wr : WriteReq M K)
     (hidem : ∀ x, icptId cfg (icptId cfg x) = icptId cfg x)
     (hne : ∀ x, x ≠ "" → icptId cfg x ≠ "")
-    (hgen : icptId cfg id = "" ∧ wr.genEmptyID = true)
+    (hgen : idAbsent cfg id = true ∧ wr.genEmptyID = true)
     (hok : (Coll.update cfg s id msg wr).1.err = none) :
     ∃ id' new,
       id' ≠ "" ∧ lookup s.items id' = none ∧
@@ -237,7 +307,7 @@ id-generation exhaustion (ten candidates all empty or in use), or is the very co
 caller's own expected-check, or by mask validation. -/
 theorem C01_seq_never_aborts (cfg : Cfg M K R) (h : EqRefl cfg.ops) (s : CState M R) (id : String) (msg : M)
     (wr : WriteReq M K) (ha : (Coll.update cfg s id msg wr).1.err = some .aborted) :
-    ((icptId cfg id = "" ∧ wr.genEmptyID = true) ∧ (genID cfg (usedIn s.items) s.rng).1 = none) ∨
+    ((idAbsent cfg id = true ∧ wr.genEmptyID = true) ∧ (genID cfg (usedIn s.items) s.rng).1 = none) ∨
     (∃ chk old, wr.expectedCheck = some chk ∧ chk old = some .aborted) ∨
     cfg.ops.validate (fieldUpdater cfg wr) msg = some .aborted := by
   have he := coll_update_eq cfg h s id msg wr
@@ -351,12 +421,24 @@ example (cfg : Cfg M K R) (hc : cfg.icpt = some firstStr) :
   simp only [icptId, hc]
   exact ⟨firstStr_idem, firstStr_ne⟩
 
-/-- `dash` is not idempotent, but it never yields the empty id, so id generation can never be
-triggered under it: the premise of `C01_genid` is unsatisfiable. -/
+/-- `dash` is not idempotent, and it never yields the empty id: before fix 929e9c0 id generation could
+never be triggered under it; now the caller's empty id triggers it (next example). -/
 example : dashStr (dashStr "a") ≠ dashStr "a" ∧ ∀ x, dashStr x ≠ "" := by
   refine ⟨by decide, fun x hx => ?_⟩
   have := congrArg String.toList hx
   simp [dashStr] at this
+
+def dashCfg : Cfg Msg Mask (List Nat) := { ops := flatOps, gen := flatGen, icpt := some dashStr }
+
+/-- behind the prefixing interceptor two `Add("", WithGenIDIfAbsent(), WithIDCallback)` in a row both
+succeed, each under a fresh generated id of the interceptor's image that the callback hears once (before
+fix 929e9c0: the first was stored under "-" without a callback, the second answered AlreadyExists) -/
+example :
+    (Coll.run dashCfg (Coll.init dashCfg [] [1, 2, 3])
+      [ .add "" { a := 1, s := "", c := none } { genEmptyID := true, idCb := true },
+        .add "" { a := 2, s := "", c := none } { genEmptyID := true, idCb := true } ]).1.map
+      (fun r => match r with | .wrote o => (o.err, o.idCalls) | _ => (none, []))
+      = [(none, ["-AQIDAAAA"]), (none, ["-AAAAAAAA"])] := by decide
 
 def dupCfg : Cfg Msg Mask (List Nat) := { ops := flatOps, gen := flatGen, icpt := some dupStr }
 
